@@ -113,8 +113,8 @@ theorem F16.mag_pack (x : Nat) (hx : x < 4294967296) : F16.mag (pack x) = F16.ma
 theorem chkHalf_spec (h : Nat) (hc : chkHalf h = true) :
     unpack h < 4294967296 ∧ unpack h / 2147483648 = h / 32768 ∧
     (F16.isNaN h = true → F32.isNaN (unpack h) = true ∧ F16.isNaN (pack (unpack h)) = true ∧
-      F16.isNaN (packRne (unpack h)) = true) ∧
-    (F16.isNaN h = false → pack (unpack h) = h ∧ packRne (unpack h) = h ∧
+      F16.isNaN (packRne (unpack h)) = true ∧ F16.isNaN (packRneC (unpack h)) = true) ∧
+    (F16.isNaN h = false → pack (unpack h) = h ∧ packRne (unpack h) = h ∧ packRneC (unpack h) = h ∧
       (F16.isInf h = true → F32.isInf (unpack h) = true) ∧
       (F16.isInf h = false → F32.isFinite (unpack h) = true ∧ F32.mag (unpack h) = F16.mag h)) := by
   simp only [chkHalf, cond_eq_ite, Bool.and_eq_true, Nat.blt_eq, Nat.beq_eq] at hc
@@ -123,11 +123,11 @@ theorem chkHalf_spec (h : Nat) (hc : chkHalf h = true) :
   · intro hn
     rw [if_pos hn] at h3
     simp only [Bool.and_eq_true] at h3
-    exact ⟨h3.1.1, h3.1.2, h3.2⟩
+    exact ⟨h3.1.1.1, h3.1.1.2, h3.1.2, h3.2⟩
   · intro hn
     rw [if_neg (by rw [hn]; exact Bool.false_ne_true)] at h3
     simp only [Bool.and_eq_true, Nat.beq_eq] at h3
-    refine ⟨h3.1.1, h3.1.2, ?_, ?_⟩
+    refine ⟨h3.1.1.1, h3.1.1.2, h3.1.2, ?_, ?_⟩
     · intro hi; have := h3.2; rw [if_pos hi] at this; exact this
     · intro hi; have := h3.2; rw [if_neg (by rw [hi]; exact Bool.false_ne_true)] at this
       simp only [Bool.and_eq_true, Nat.beq_eq] at this
